@@ -389,6 +389,7 @@ def run(ctx):
         if ctx.rng.random() < 0.3:
             failed_modification(ctx, progs[0])
     same_named_classes(ctx)
+    frozen_routes(ctx)
     for _ in range(ctx.n(40, 900)):  # tree refinement: the Lean model holds and edits the compositions
         tree_case(ctx, [gen_comp.gen_program(ctx.rng, allow_pow=False, allow_array=False), gen_comp.gen_program(ctx.rng, allow_pow=False, allow_array=False)])
     for _ in range(ctx.n(40, 600)):  # the recursion cache as a state machine with exceptions
@@ -443,6 +444,49 @@ def failed_modification(ctx, prog):
                  "after a modification that raised, the same later modifications give other answers (paths / names / counts) "
                  "than on a model that never saw the failed call", case,
                  {"after_failed_call": str(ra)[:300], "without": str(rb)[:300], "left_behind": "bad_member" in vars(x)})
+
+
+def frozen_routes(ctx):
+    """every route by which a parameter or component of a model can be assigned, replaced or removed is rejected while the
+    model is frozen, and the answers stay those of an uncached rebuild"""
+    import vlib
+    arr = af.Array((2, 2), af.UniformPrior(0.0, 1.0))
+    inner = af.Model(vlib.P2)
+    coll = af.Collection(arr=arr, g=inner, lst=af.Collection([af.Model(vlib.P1), af.Model(vlib.P1)]))
+    coll.freeze()
+    before = answer(coll)
+    routes = {
+        "Model.setattr": lambda: setattr(inner, "a", 0.5),
+        "Collection.setattr": lambda: setattr(coll, "extra", af.UniformPrior(0.0, 1.0)),
+        "Collection.setitem": lambda: coll.lst.__setitem__(0, af.Model(vlib.P2)),
+        "Collection.append": lambda: coll.lst.append(af.Model(vlib.P2)),
+        "Collection.remove": lambda: coll.lst.remove(coll.lst[0]),
+        "Array.setitem": lambda: arr.__setitem__((0, 1), 0.5),
+        "Model.delattr": lambda: delattr(inner, "b"),
+        "Collection.delattr": lambda: delattr(coll, "g"),
+    }
+    for name, f in routes.items():
+        case = {"label": "frozen-routes", "route": name}
+        try:
+            f()
+            outcome = "accepted"
+        except AssertionError:
+            outcome = "rejected"
+        except Exception as e:  # noqa
+            outcome = "raised:" + type(e).__name__
+        ctx.hit("frozen-route:" + name + ":" + outcome.split(":")[0])
+        if outcome == "accepted":
+            ctx.fail("C13-frozen-accepts", f"a frozen model accepted a modification through {name}", case, None)
+            return
+        try:
+            now, fresh = answer(coll), fresh_answer(coll)
+        except Exception as e:  # noqa
+            ctx.fail("C13-query-raises", f"a query raised after a rejected modification through {name}", case, type(e).__name__)
+            return
+        if now != before or now != fresh:
+            ctx.fail("C13-stale-answer", f"answers of a frozen model changed or went stale after a rejected modification through {name}", case,
+                     {"before": str(before)[:200], "now": str(now)[:200], "fresh": str(fresh)[:200]})
+            return
 
 
 def same_named_classes(ctx):
@@ -901,6 +945,8 @@ def replay(ctx, payload):
     case = payload.get("case") or payload.get("disagreements", [{}])[0].get("case")
     if case.get("label") == "same-named-classes":
         return same_named_classes(ctx)
+    if case.get("label") == "frozen-routes":
+        return frozen_routes(ctx)
     if case.get("label") == "failed-modification":
         return failed_modification(ctx, case["programs"][0])
     if case.get("label") == "reccache-process-wide":
